@@ -39,9 +39,18 @@ def main():
     inconclusive = []
     try:
         if mode == "twice":
-            ncA, _, _ = gen(spec, work, "a")
-            ncB, _, _ = gen(spec, work, "b")
+            res = []
+            for tag in ("a", "b"):
+                try:
+                    res.append(gen(spec, work, tag)[0])
+                except Exception as e:  # noqa: BLE001
+                    res.append(e)
             nexec = 2
+            if any(isinstance(r, Exception) for r in res):
+                # the corpus builds this spec (serially): a build that raises here is not repeatable
+                acc.add("the same spec builds both times", "same spec twice in one process", 1.0, 0, sig="; ".join("%s: %s" % (type(r).__name__, str(r)[:80]) for r in res if isinstance(r, Exception)), where={"np": spec.get("np")})
+                raise StopIteration
+            ncA, ncB = res
             mode_identical(acc, "same spec twice in one process", spec, spec, ncA, ncB)
             acc.add("grid_id differs between files (unique id)", "same spec twice in one process", 0.0 if ncA["__attrs__"].get("grid_id") != ncB["__attrs__"].get("grid_id") else 1.0, 0)
         elif mode == "after_other":
@@ -139,6 +148,8 @@ def main():
                 mode_identical(acc, "cli loop: regenerated from the embedded inputs", spec, spec, nc1, nc2)
             except BaseException as e:  # noqa: BLE001
                 acc.add("CLI accepts the inputs recreated from its own grid file", cls, 1.0, 0, sig="%s: %s" % (type(e).__name__, str(e)[:200]))
+    except StopIteration:
+        pass
     except BaseException as e:  # noqa: BLE001
         import traceback
 
@@ -149,3 +160,6 @@ def main():
 
 if __name__ == "__main__":
     main()
+    # worker processes of a ParallelMap that raised may still be alive: do not wait for them
+    sys.stdout.flush()
+    os._exit(0)
